@@ -3,6 +3,7 @@ package main
 // govc check: decide one property, write evidence, print VIOLATION / KNOWN-FINDING.
 
 import (
+	"context"
 	"encoding/json"
 	"flag"
 	"fmt"
@@ -166,6 +167,26 @@ func cmdCheck(args []string) {
 	}
 	res := verifyFuncs(p, keys, runOpts{repo: *repo, workdir: wd, timeout: timeout, all: all, maxPaths: *maxPaths, lemmas: lemmas})
 
+	// raw SMT lemma files (string theory etc.), tagged in their first line: "; tags: C10"
+	if files, _ := filepath.Glob(filepath.Join(*verif, "contracts", "lemmas", "*.smt2")); len(files) > 0 {
+		fr := &FuncResult{Fn: "lemma files"}
+		for _, f := range files {
+			data, err := os.ReadFile(f)
+			if err != nil {
+				continue
+			}
+			first := strings.SplitN(string(data), "\n", 2)[0]
+			if !strings.HasPrefix(first, "; tags:") || !hasTag(strings.Fields(strings.ReplaceAll(first[7:], ",", " ")), *prop) {
+				continue
+			}
+			ob := &Obligation{Func: "lemma file", Name: "lemma-file " + filepath.Base(f), Kind: "lemma", Tags: []string{*prop}, Text: "raw SMT-LIB lemma " + filepath.Base(f)}
+			ob.Result = runLemmaFile(f)
+			fr.Obls = append(fr.Obls, ob)
+		}
+		if len(fr.Obls) > 0 {
+			res = append(res, fr)
+		}
+	}
 	known := loadKnownFindings(filepath.Join(*verif, "known_findings.txt"))
 	replayDir := filepath.Join(*verif, "replay", "out")
 	if d := os.Getenv("VERIF_OUT_DIR"); d != "" {
@@ -382,6 +403,25 @@ func cmdCheck(args []string) {
 	fmt.Printf("property %s tier %s: %d functions, %d obligations, %d discharged, %d violation(s), %d known finding(s), %.1fs\n",
 		*prop, *tier, len(keys), nObl, nDis, violations, len(knownLines), time.Since(start).Seconds())
 	os.Exit(exit)
+}
+
+// runLemmaFile discharges a hand-written SMT-LIB lemma (expected unsat) with cvc5 and z3.
+func runLemmaFile(f string) SolverResult {
+	specs := []solverSpec{
+		{"cvc5", func(file string, t int) []string {
+			return []string{"cvc5", "--tlimit=" + strconv.Itoa(t*1000), "--strings-exp", file}
+		}},
+		solverSpecs[0],
+	}
+	var last SolverResult
+	for _, sp := range specs {
+		r := runOne(context.Background(), sp, f, 30)
+		if r.Status == "unsat" || r.Status == "sat" {
+			return r
+		}
+		last = r
+	}
+	return last
 }
 
 func round3(f float64) float64 { return float64(int(f*1000+0.5)) / 1000 }
